@@ -665,3 +665,159 @@ package zapcore
 //@   flags nopanic
 //@   modifies nothing
 //@   ensures typeof(result) == type(*ioCore) && fresh(as(result, type(*ioCore))) && as(result, type(*ioCore)).enc == enc && as(result, type(*ioCore)).out == ws && as(result, type(*ioCore)).LevelEnabler == enab
+
+// ---------------------------------------------------------------------------
+// Core.With (C07): deriving a core never changes the receiver nor anything reachable from it.
+
+// Core.With: the derived core is a new value; nothing that existed before is modified
+// (fields of cores, slices of cores, fields' storage, byte buffers): isolation by framing.
+//@ iface zapcore.Core.With
+//@   params fields
+//@   modifies $user, comp(E:uint8), comp(E:zapcore.Core), fields(zapcore.Field)
+//@   ensures result != nil
+//@   ensures elems_frame(type(uint8), zero(type([]uint8)))
+//@   ensures elems_frame(type(zapcore.Core), zero(type([]zapcore.Core)))
+//@   ensures type_frame(type(zapcore.Field))
+
+//@ func (zapcore.multiCore).With
+//@   props C07
+//@   refines zapcore.Core.With
+//@   flags nopanic
+//@   requires forall k int :: 0 <= k && k < len(mc) ==> mc[k] != nil
+//@   track W = invoke zapcore.Core.With
+//@   modifies $user, comp(E:uint8), comp(E:zapcore.Core), fields(zapcore.Field)
+//@   ensures typeof(result) == type(multiCore) && len(as(result, type(multiCore))) == len(mc) && (len(mc) > 0 ==> fresh(as(result, type(multiCore))))
+//@   ensures #W == len(mc) && (forall k int :: 0 <= k && k < len(mc) ==> W.recv[k] == old(mc[k]) && W.arg0[k] == fields && as(result, type(multiCore))[k] == W.ret0[k])
+//@   ensures forall k int :: 0 <= k && k < len(mc) ==> mc[k] == old(mc[k])
+//@   loop 1 invariant 0 <= $idx && $idx <= len(mc) && #W == $idx
+//@   loop 1 invariant forall k int :: 0 <= k && k < len(mc) ==> mc[k] == old(mc[k])
+//@   loop 1 invariant forall k int :: 0 <= k && k < $idx ==> W.recv[k] == old(mc[k]) && W.arg0[k] == fields && W.ret0[k] != nil && clone[k] == W.ret0[k]
+//@   loop 1 invariant len(clone) == len(mc) && (len(mc) > 0 ==> fresh(clone) && root(arr(clone)) != root(arr(mc)))
+//@   loop 1 invariant elems_frame(type(uint8), zero(type([]uint8))) && elems_frame(type(zapcore.Core), zero(type([]zapcore.Core))) && type_frame(type(zapcore.Field))
+
+// The derived sampler shares the counters (and tick, thresholds, hook) of its parent: one budget.
+//@ func (*zapcore.sampler).With
+//@   props C07 C11
+//@   refines zapcore.Core.With
+//@   flags nopanic
+//@   requires s != nil && s.Core != nil
+//@   track W = invoke zapcore.Core.With
+//@   modifies $user, comp(E:uint8), comp(E:zapcore.Core), fields(zapcore.Field)
+//@   ensures #W == 1 && W.recv[0] == old(s.Core) && W.arg0[0] == fields
+//@   ensures typeof(result) == type(*sampler) && fresh(as(result, type(*sampler))) && as(result, type(*sampler)).Core == W.ret0[0]
+//@   ensures as(result, type(*sampler)).counts == old(s.counts) && as(result, type(*sampler)).tick == old(s.tick) && as(result, type(*sampler)).first == old(s.first) && as(result, type(*sampler)).thereafter == old(s.thereafter) && as(result, type(*sampler)).hook == old(s.hook)
+//@   ensures *s == old(*s)
+
+//@ func (*zapcore.hooked).With
+//@   props C07
+//@   refines zapcore.Core.With
+//@   flags nopanic
+//@   requires h != nil && h.Core != nil
+//@   track W = invoke zapcore.Core.With
+//@   modifies $user, comp(E:uint8), comp(E:zapcore.Core), fields(zapcore.Field)
+//@   ensures #W == 1 && W.recv[0] == old(h.Core) && W.arg0[0] == fields
+//@   ensures typeof(result) == type(*hooked) && fresh(as(result, type(*hooked))) && as(result, type(*hooked)).Core == W.ret0[0] && as(result, type(*hooked)).funcs == old(h.funcs)
+//@   ensures *h == old(*h)
+
+//@ func (*zapcore.levelFilterCore).With
+//@   props C07
+//@   refines zapcore.Core.With
+//@   flags nopanic
+//@   requires c != nil && c.core != nil
+//@   track W = invoke zapcore.Core.With
+//@   modifies $user, comp(E:uint8), comp(E:zapcore.Core), fields(zapcore.Field)
+//@   ensures #W == 1 && W.recv[0] == old(c.core) && W.arg0[0] == fields
+//@   ensures typeof(result) == type(*levelFilterCore) && fresh(as(result, type(*levelFilterCore))) && as(result, type(*levelFilterCore)).core == W.ret0[0] && as(result, type(*levelFilterCore)).level == old(c.level)
+//@   ensures *c == old(*c)
+
+//@ func zapcore.NewLazyWith
+//@   props C07
+//@   flags nopanic
+//@   modifies nothing
+//@   ensures typeof(result) == type(*lazyWithCore) && fresh(as(result, type(*lazyWithCore))) && as(result, type(*lazyWithCore)).Core == core && as(result, type(*lazyWithCore)).fields == fields
+
+// ---------------------------------------------------------------------------
+// Constructors of the core combinators (C05, C07, C11): nothing is dropped or reordered.
+
+//@ func zapcore.NewNopCore
+//@   props C05
+//@   flags nopanic
+//@   modifies nothing
+//@   ensures typeof(result) == type(nopCore)
+
+//@ func (zapcore.nopCore).Enabled
+//@   props C05
+//@   flags nopanic pure
+//@   ensures !result
+
+//@ func (zapcore.nopCore).Check
+//@   props C05
+//@   refines zapcore.Core.Check
+//@   flags nopanic
+//@   requires ce != nil ==> forall i int :: 0 <= i && i < len(ce.cores) ==> ce.cores[i] != nil
+//@   modifies nothing
+//@   ensures result == ce
+
+//@ func (zapcore.nopCore).Write
+//@   props C05
+//@   flags nopanic
+//@   modifies nothing
+//@   ensures result == nil
+
+// A tee keeps every branch it is given, in order.
+//@ func zapcore.NewTee
+//@   props C05 C04
+//@   flags nopanic
+//@   modifies nothing
+//@   ensures len(cores) == 0 ==> typeof(result) == type(nopCore)
+//@   ensures len(cores) == 1 ==> result == cores[0]
+//@   ensures len(cores) >= 2 ==> typeof(result) == type(multiCore) && as(result, type(multiCore)) == cores
+
+//@ callback type:func(zapcore.Entry) error
+//@   modifies $user
+
+//@ func zapcore.RegisterHooks
+//@   props C05
+//@   flags nopanic
+//@   modifies nothing
+//@   ensures typeof(result) == type(*hooked) && fresh(as(result, type(*hooked))) && as(result, type(*hooked)).Core == core
+//@   ensures len(as(result, type(*hooked)).funcs) == len(hooks) && (forall k int :: 0 <= k && k < len(hooks) ==> as(result, type(*hooked)).funcs[k] == hooks[k])
+
+// hooked.Write: every hook function runs exactly once, in order; errors are combined.
+//@ func (*zapcore.hooked).Write
+//@   props C05 C10
+//@   refines zapcore.Core.Write
+//@   flags nopanic
+//@   requires h != nil && (forall k int :: 0 <= k && k < len(h.funcs) ==> h.funcs[k] != nil)
+//@   track F = fnelem zapcore.hooked.funcs
+//@   modifies $user
+//@   ensures #F == len(old(h.funcs)) && (forall k int :: 0 <= k && k < #F ==> F.arg0[k] == ent)
+//@   ensures result == errFold(F.ret0, #F)
+//@   loop 1 invariant 0 <= $idx && $idx <= len(h.funcs) && #F == $idx && h.funcs == old(h.funcs) && (forall k int :: 0 <= k && k < len(h.funcs) ==> h.funcs[k] != nil)
+//@   loop 1 invariant forall k int :: 0 <= k && k < $idx ==> F.arg0[k] == ent
+//@   loop 1 invariant err == errFold(F.ret0, $idx)
+
+//@ iface zapcore.SamplerOption.apply
+//@   params s
+//@   modifies *s, $user
+
+//@ func zapcore.NewSamplerWithOptions
+//@   props C11 C05
+//@   arith bv
+//@   flags nopanic
+//@   requires forall k int :: 0 <= k && k < len(opts) ==> opts[k] != nil
+//@   track AP = invoke zapcore.SamplerOption.apply
+//@   modifies $user
+//@   ensures typeof(result) == type(*sampler) && fresh(as(result, type(*sampler)))
+//@   ensures #AP == len(opts) && (forall k int :: 0 <= k && k < len(opts) ==> AP.recv[k] == opts[k] && AP.arg0[k] == as(result, type(*sampler)))
+//@   ensures len(opts) == 0 ==> as(result, type(*sampler)).Core == core && as(result, type(*sampler)).tick == tick && as(result, type(*sampler)).first == uint64(first) && as(result, type(*sampler)).thereafter == uint64(thereafter) && as(result, type(*sampler)).counts != nil && as(result, type(*sampler)).hook != nil
+//@   loop 1 invariant 0 <= $idx && $idx <= len(opts) && #AP == $idx
+//@   loop 1 invariant forall k int :: 0 <= k && k < $idx ==> AP.recv[k] == opts[k] && AP.arg0[k] == s
+//@   loop 1 invariant fresh(s) && type_frame(type(sampler))
+//@   loop 1 invariant $idx == 0 ==> s.Core == core && s.tick == tick && s.first == uint64(first) && s.thereafter == uint64(thereafter) && s.counts != nil && s.hook != nil
+
+//@ func zapcore.newCounters
+//@   props C11
+//@   flags nopanic
+//@   modifies nothing
+//@   ensures fresh(result)
